@@ -19,16 +19,18 @@ var zzReadSizes = []int{0, 1, 3, 16}
 // fragmentation are choices. A sentinel request follows the body on the same connection.
 func ZZ_C14_H1() {
 	chunked := zz.Choose("chunked", 2) == 1
+	// the method does not decide the framing: a GET with a body is streamed like a POST
+	method := []string{"POST", "GET"}[zz.Choose("method", 2)]
 	var wire, body []byte
 	if !chunked {
 		l := zz.Range("len", 0, zz.Param("L", 6))
 		body = zz.Bytes("body", l)
-		wire = []byte("POST /b HTTP/1.1\r\nHost: h\r\nContent-Length: ")
+		wire = []byte(method + " /b HTTP/1.1\r\nHost: h\r\nContent-Length: ")
 		wire = append(wire, byte('0'+l))
 		wire = append(wire, "\r\n\r\n"...)
 		wire = append(wire, body...)
 	} else {
-		wire = []byte("POST /b HTTP/1.1\r\nHost: h\r\nTransfer-Encoding: chunked\r\n\r\n")
+		wire = []byte(method + " /b HTTP/1.1\r\nHost: h\r\nTransfer-Encoding: chunked\r\n\r\n")
 		nch := zz.Range("chunks", 1, zz.Param("C", 2))
 		for i := 0; i < nch; i++ {
 			sz := zz.Range("size", 1, zz.Param("S", 6))
@@ -339,4 +341,114 @@ func ZZ_C14_H3() {
 	}
 	// (that an ordinary trailer keeps the connection is C01's clause, asserted by ZZ_C01_H3)
 	zz.Cover("ordinary-trailer-kept-the-connection", tr <= 1 && len(seen) == 2)
+}
+
+// ZZ_C14_H4: two-fragment delivery with the cut at every position of the body region: the first
+// read ends somewhere inside the (fixed-length or chunked) body, the second read delivers the
+// rest of the body together with the pipelined sentinel in one piece. The handler stops after any
+// number of small reads, so the release path has to drop body bytes that are not buffered yet and
+// arrive bundled with bytes that are not body.
+func ZZ_C14_H4() {
+	chunked := zz.Choose("chunked", 2) == 1
+	var wire, body []byte
+	if !chunked {
+		l := zz.Range("len", 1, zz.Param("L", 4))
+		body = zz.Bytes("body", l)
+		wire = []byte("POST /b HTTP/1.1\r\nHost: h\r\nContent-Length: ")
+		wire = append(wire, byte('0'+l))
+		wire = append(wire, "\r\n\r\n"...)
+	} else {
+		wire = []byte("POST /b HTTP/1.1\r\nHost: h\r\nTransfer-Encoding: chunked\r\n\r\n")
+	}
+	bodyStart := len(wire)
+	if !chunked {
+		wire = append(wire, body...)
+	} else {
+		nch := zz.Range("chunks", 1, zz.Param("C", 2))
+		for i := 0; i < nch; i++ {
+			sz := zz.Range("size", 1, zz.Param("S", 3))
+			pl := zz.Bytes("payload", sz)
+			wire = append(wire, byte('0'+sz))
+			wire = append(wire, "\r\n"...)
+			wire = append(wire, pl...)
+			wire = append(wire, "\r\n"...)
+			body = append(body, pl...)
+		}
+		wire = append(wire, "0\r\n\r\n"...)
+	}
+	bodyEnd := len(wire)
+	wire = append(wire, zzSentinel...)
+	cut := zz.Range("cut", bodyStart, bodyEnd)
+	nreads := zz.Range("nreads", 0, zz.Param("R", 3))
+	rsize := []int{1, 16}[zz.Choose("rsize", 2)]
+	maxBody := 0 // (small prefetch limits are ZZ_C14_H1's subject, known finding included)
+	nc := zz.NewNetConn(wire)
+	nc.Frag = func(rem int) int {
+		pos := len(wire) - rem
+		if pos < cut {
+			return cut - pos
+		}
+		return rem
+	}
+	var got []byte
+	eofEarly, readErr := false, false
+	var seen []zzSeen
+	consumedAtSecond := -1
+	core := zzNewCore(func(c context.Context, ctx *app.RequestContext) {
+		s := zzSeen{method: string(ctx.Method()), uri: string(ctx.Request.RequestURI())}
+		seen = append(seen, s)
+		if len(seen) == 1 {
+			r := ctx.RequestBodyStream()
+			for i := 0; i < nreads; i++ {
+				buf := make([]byte, rsize)
+				n, err := r.Read(buf)
+				got = append(got, buf[:n]...)
+				if err == io.EOF {
+					if len(got) != len(body) {
+						eofEarly = true
+					}
+					break
+				} else if err != nil {
+					readErr = true
+					break
+				}
+			}
+		} else if len(seen) == 2 {
+			consumedAtSecond = nc.Pos - ctx.GetConn().Len()
+		}
+		ctx.Response.SetBodyString("r" + s.uri)
+	})
+	s := zzNewServer(core)
+	s.StreamRequestBody = true
+	s.IdleTimeout = 1
+	s.MaxRequestBodySize = maxBody
+	_ = s.Serve(context.Background(), standard.ZZNewConn(nc))
+	zz.Cover("reached-assert", true)
+	zz.Cover("stopped-before-the-cut", len(got) < len(body))
+	zz.Cover("sentinel-handled", len(seen) == 2)
+	zz.Assert("first-handler-ran", len(seen) >= 1)
+	zz.Assert("no-read-error-on-well-formed-body", !readErr)
+	zz.Assert("bytes-read-are-a-prefix-of-the-body", len(got) <= len(body) && bytes.Equal(got, body[:minInt(len(got), len(body))]))
+	zz.Assert("eof-only-at-end-of-body", !eofEarly)
+	zz.Assert("at-most-the-sentinel-follows", len(seen) <= 2)
+	if zz.Param("C01", 0) == 1 {
+		// C01 clause: the stream is well-formed, the pipelined request must be handled too
+		zz.Assert("pipelined-request-still-handled", len(seen) == 2)
+	}
+	if len(seen) >= 2 {
+		zz.Assert("next-request-is-the-sentinel", seen[1].method == "GET" && seen[1].uri == "/s")
+		zz.Assert("next-request-parsed-from-first-byte-after-body", consumedAtSecond == len(wire))
+	}
+	out := nc.Out
+	pos, n := 0, 0
+	for pos < len(out) {
+		_, k, ok := zzReadResponse(out[pos:], false)
+		if !ok {
+			n = -1
+			break
+		}
+		pos += k
+		n++
+	}
+	zz.Assert("one-response-per-handled-request-and-nothing-else", n == len(seen))
 }
